@@ -51,7 +51,13 @@ def run_roundtrip(case):
         hA, runA, gA = parse(args)
     except shimmod.ShimError as e:
         return Outcome(True, False, ["rejected"], discard=True, msg=str(e))
-    s.opts_save(hA, "saved.cfg")
+    # where the .cfg is written is up to the caller; rerunning "in place" from a saved .cfg with overrides on the command
+    # line writes it over the very file the options were read from (round-5 seed C13e skips exactly that write)
+    saved = "parent.cfg" if (case.get("over_parent") and case["file"]) else "saved.cfg"
+    s.opts_save(hA, saved)
+    if saved != "saved.cfg":
+        import shutil
+        shutil.copy(saved, "saved.cfg")
     try:
         hB, runB, gB = parse(["--config=saved.cfg"])
     except shimmod.ShimError as e:
@@ -71,6 +77,8 @@ def run_roundtrip(case):
     cls = ["ncli%d" % min(len(case["cli"]), 3), "nfile%d" % min(len(case["file"]), 3)]
     if any(k in O.ALIASES for k in case["file"]):
         cls.append("alias")
+    if case.get("over_parent") and case["file"]:
+        cls.append("saved_over_parent")
     fs_used = gA["SyncFreq"] != 0
     if fs_used:
         cls.append("fs")
@@ -137,7 +145,10 @@ def assignments(draw):
     for n in O.IGNORED:
         if draw(st.integers(0, 9)) == 0:
             fil[n] = draw(O.value_strategy(n))
-    return dict(cli=cli, file=fil)
+    c = dict(cli=cli, file=fil)
+    if fil and draw(st.integers(0, 3)) == 0:
+        c["over_parent"] = True
+    return c
 
 
 # ------------------------------------------------------------------ end to end: rerun from the saved .cfg
